@@ -14,8 +14,41 @@ from lib.vlib import Check
 KINDS = e2e.LOCAL_KINDS
 
 
+IDLE_S = 32.0       # longer than the 30 s in which a Shadowsocks 2022 header stays acceptable
+
+
+async def idle_flows(c, tier, rnd):
+    """Flows whose first payload of a direction comes long after the flow was set up: the application is silent for IDLE_S
+    after its local handshake and only then sends its request; the target is silent for IDLE_S after the dial and only
+    then answers.  Nothing in RelayAbs depends on when bytes are written.  Runs beside the other batches."""
+    ss = [x for x in e2e.tcp_matrix() if x.proto == "shadowsocks" and x.cipher in e2e.SS2022]
+    other = [x for x in e2e.tcp_matrix() if not (x.proto == "shadowsocks" and x.cipher in e2e.SS2022)]
+    rnd.shuffle(ss)
+    rnd.shuffle(other)
+    confs = ss[:1] + other[:1] if tier == "quick" else ss[:8] + other[:4]
+    c.cov["idle_configurations"] = [x.label for x in confs]
+
+    async def one(i, conf):
+        dep = e2e.Deployment(conf, "c01idle%d" % i)
+        try:
+            await dep.start()
+            late_request = [("pause", IDLE_S), ("up", rnd.randint(1, 3000)), ("sync",), ("down", rnd.randint(1, 100000)), ("sync",),
+                            ("tgt_close", "close"), ("wait_end", "app")]
+            late_answer = [("up", rnd.randint(1, 3000)), ("sync",), ("pause", IDLE_S), ("down", rnd.randint(1, 100000)), ("sync",),
+                           ("up", rnd.randint(1, 3000)), ("sync",), ("app_close", "close"), ("wait_end", "tgt")]
+            spec = [(late_request, "ok", "socks5", 1 << 16), (late_answer, "ok", "connect", 1 << 16),
+                    (late_request, "ok", "connect", 1 << 16), (late_answer, "ok", "http", 1 << 16)]
+            return await relayrun.run_batch(dep, spec, vlib.seed() * 1000 + 900 + i, fid0=4000, settle_cap=45.0 if conf.transport == "quic" else 9.0)
+        finally:
+            dep.stop()
+    res = await asyncio.gather(*[one(i, conf) for i, conf in enumerate(confs)])
+    c.add("idle_flows", 4 * len(confs))
+    return list(res)
+
+
 async def drive(c, tier, scripts, rnd):
     batches = []
+    idle = asyncio.ensure_future(idle_flows(c, tier, random.Random(rnd.random())))
     n_conf = 15 if tier == "quick" else 50
     per_conf = 16 if tier == "quick" else 60
     confs = relayrun.pick_confs(rnd, n_conf)
@@ -48,12 +81,14 @@ async def drive(c, tier, scripts, rnd):
             # back-pressure: slow reader, far more data than the buffers hold, the writer closes at once
             if tier != "quick" or ci < 5:
                 spec = [(relayrun.pressure_script(rnd), "ok", KINDS[(i + ci) % 3], 1 << 16) for i in range(2 if tier == "quick" else 4)]
-                ev = await relayrun.run_batch(dep, spec, vlib.seed() * 1000 + 800 + ci, fid0=3000, end_cap=20.0)
+                spec += [(relayrun.slow_drain_script(rnd, d), "ok", KINDS[(i + ci) % 3], 1 << 16) for i, d in enumerate(["up", "down"])]
+                ev = await relayrun.run_batch(dep, spec, vlib.seed() * 1000 + 800 + ci, fid0=3000, end_cap=25.0)
                 batches.append(ev)
                 c.add("pressure_scripts", len(spec))
         finally:
             dep.stop()
     c.add("replayed_scripts", used)
+    batches += await idle
     return batches
 
 
